@@ -105,4 +105,13 @@ pub fn generate(g: &mut Gen, thorough: bool) {
             true,
         );
     }
+    // registering a name again
+    for kind in ["default", "new", "plain", "plain-new"] {
+        for (name, b1, b2) in [
+            ("m:x", "addone", "addone | addone"), ("m:x", "helmert x=3", "helmert x=5 y=1"), ("geo:in", "adapt from=neuf_deg", "adapt from=enuf_deg"),
+            ("m:pipe", "addone | helmert x=1", "addone inv"), ("gis:out", "noop", "addone"),
+        ] {
+            g.push(format!("S_C18S\t{kind}\t{}\t{}\t{}", crate::wire::escape(name), crate::wire::escape(b1), crate::wire::escape(b2)), "oracle-re-registration", true);
+        }
+    }
 }
